@@ -61,6 +61,7 @@ def patterns():
     # iterations aborted by a failure of the user's likelihood, mixed with checkpoints and complete runs
     # the sampler is pickled / deep-copied in the middle of its life and the copy carries on
     out += [("P", "S"), ("S", "P", "S", "S"), ("V0", "P", "S", "L0", "S"), ("P", "V0", "S", "P", "L0", "S"), ("D", "S", "S"), ("S", "D", "S", "V0", "S", "L0", "S"), ("P", "R"), ("D", "R", "S"), ("X4", "P", "S"), ("D", "X4", "S")]
+    out += [("Dl",), ("Pl",), ("S", "Dl", "S"), ("S", "S", "Pl", "S"), ("V0", "S", "Dl", "L0", "S"), ("Dl", "Pl", "Dl"), ("R", "Dl"), ("X4", "Dl", "S"), ("Pl", "R")]
     out += [("X1", "R"), ("X4", "V0", "S", "L0", "S"), ("V0", "X11", "L0", "S"), ("V0", "S", "X4", "V1", "L0", "X1", "S"), ("X4", "X4", "R"), ("R", "X1", "S")]
     return out
 
@@ -116,6 +117,30 @@ class Session:
                             p.ll.fail_countdown = None
                     elif op == "R":
                         p.sampler.run(n_total=p.cfg.get("run_total", 3 * p.cfg["n_particles"]), progress=False)
+                    elif op in ("Pl", "Dl"):
+                        # lockstep: the live sampler is copied (pickle round trip / deep copy); ONE iteration is then made on the original
+                        # (monitors muted) and on the copy under the same tape seed: a copy must behave exactly like the object it was made from.
+                        # The session continues with the copy.
+                        import copy as _copy
+                        import pickle as _pickle
+                        old = p.sampler
+                        new = _pickle.loads(_pickle.dumps(old)) if op == "Pl" else _copy.deepcopy(old)
+                        p.mute = True
+                        try:
+                            old.sample()
+                        finally:
+                            p.mute = False
+                        d_old = pl.digest(pl.snap(old.state))
+                        p.sampler, p.state = new, new.state
+                        f = new._core.config.log_likelihood
+                        p.ll = getattr(f, "f", f)
+                        self.copies += 1
+                        new.sample()
+                        if pl.digest(pl.snap(new.state)) != d_old:
+                            ho, hn = old.state._history, new.state._history
+                            first = next((k for k in ("beta", "logz", "u", "x", "logl") if len(ho[k]) != len(hn[k]) or not np.array_equal(np.asarray(ho[k][-1]), np.asarray(hn[k][-1]))), "current state")
+                            p.violate("session:copy:diverges-from-original", f"after {op}: one iteration on the {'unpickled' if op == 'Pl' else 'deep-copied'} sampler and on the original, under the same random tape, "
+                                      f"give different states (first difference: {first})")
                     elif op in ("P", "D"):
                         # P: the sampler goes through a pickle round trip, D: it is deep-copied; the session continues with the COPY.
                         # After D the original stays alive and must not change while the copy is used.
